@@ -31,6 +31,7 @@ class Monitor:
         self.balance_events = 0
         self.point_hook = None            # scheduler hook called at each node evaluation
         self.wrapped_classes = 0
+        self.install_problems = []
 
     def reset(self):
         self.dtype_violations.clear()
@@ -141,16 +142,24 @@ def install():
         _wrap_class(cls)
     query_compile.EvalNode.__init_subclass__ = classmethod(__init_subclass__)
 
-    orig_column = query_compile.SubqueryTable.column
+    # column classes manufactured per sub-query (when the engine does so; the __init_subclass__ hook above
+    # also sees them — this is belt and braces and must not depend on the engine's internal layout)
+    orig_column = getattr(getattr(query_compile, 'SubqueryTable', None), 'column', None)
+    if orig_column is not None:
+        def column(i, name, dtype):
+            cls = orig_column(i, name, dtype)
+            _wrap_class(cls)
+            return cls
+        query_compile.SubqueryTable.column = staticmethod(column)
 
-    def column(i, name, dtype):
-        cls = orig_column(i, name, dtype)
-        _wrap_class(cls)
-        return cls
-    query_compile.SubqueryTable.column = staticmethod(column)
-
-    _install_aggregator_monitor(query_compile)
-    _install_balance_monitor(query_env)
+    try:
+        _install_aggregator_monitor(query_compile)
+    except Exception as exc:  # noqa: BLE001
+        MON.install_problems.append(f'aggregator monitor: {exc!r}')
+    try:
+        _install_balance_monitor(query_env)
+    except Exception as exc:  # noqa: BLE001
+        MON.install_problems.append(f'balance monitor: {exc!r}')
     _installed = True
     return MON
 
